@@ -715,9 +715,9 @@ def decode_cols(v):
 
 class Check(PropertyCheck):
     id = 'C04'
-    props = ['Tables.v', 'C04.v']
+    props = ['Tables.v', 'C04.v', 'ExecFacts.v']
     static_targets = ['theories/Model/Pinned.vo', 'theories/Lemmas/TablesL.vo', 'theories/Model/AsMatrix.vo',
-                      'theories/Lemmas/AsMatrixL.vo', 'theories/Lemmas/AsMatrixExecL.vo', 'theories/Lemmas/AsMatrixLoopL.vo']
+                      'theories/Lemmas/AsMatrixL.vo', 'theories/Lemmas/AsMatrixExecL.vo', 'theories/Lemmas/AsMatrixLoopL.vo', 'theories/Lemmas/ExecFactsL.vo']
     coq_header = A.COQ_HEADER + 'From Furax Require Import Model.Wf Model.AsMatrix.\n'
     shard = 60
     workers = 8
@@ -729,7 +729,7 @@ class Check(PropertyCheck):
         'the named premises HON (C05 honesty: derivable via honesty_premise_from_C05) and the leaf-level premises HOV '
         '(n-d DiagonalOperator, Toeplitz, DiagonalInverse overrides: proved in the models of C11/C09), HRESH (ravel/reshape '
         '= eye), HINV/HSOLVE (jnp.linalg.inv returns an inverse; a lazy inverse solves its system): these enter as Section '
-        'hypotheses, validated by the correspondence on every case; discharging lin_facts for Exec.leafsem was not done'
+        'hypotheses, validated by the correspondence on every case; lin_facts IS discharged for the executable semantics with any table (Props/ExecFacts.v: exec_lin_facts, exec_denote_linear; exec_apply_is_matvec under the decidable table_okb)'
     )
     trusted = [
         'translator tools/translate/tables.py (which definition of as_matrix - and of the other dunder / structure '
